@@ -149,6 +149,14 @@ theorem every_command_loads_config_first :
       guarded evs "GetConfigAndMetadata" && (evs.head?.map (fun e => e.1 == "call" && e.2.1 == "GetConfigAndMetadata")).getD false) = true := by
   decide +kernel
 
+/-- **nothing is written when the document cannot be generated**: the combined command builds the document first
+    and returns on its failure before the routes file is written (this was finding C20-F2) -/
+theorem spec_failure_writes_nothing :
+    (let evs := eventsOf "cmd/entrypoint.go:GenerateSpecAndRoutes"
+     guarded evs "swagen.GenerateSpec" = true ∧ before evs "swagen.GenerateSpec" "routes.GenerateRoutes" = true ∧
+     before evs "swagen.GenerateSpec" "swagen.OutputSpec" = true) := by
+  decide +kernel
+
 /-- the routes file is written with the mode computed from the configured permission string -/
 theorem routes_written_with_configured_mode :
     (let evs := eventsOf "generator/routes/generator.go:GenerateRoutes"
